@@ -1,37 +1,40 @@
 ------------------------------ MODULE P_Typha ------------------------------
-(* C24 property layer.  What the upstream syncer has written into Typha (every value carries a per-key
-   strictly increasing version; a deletion is a version too), whether/when upstream reported in-sync,
+(* C24 property layer.  What the upstream syncer has written into Typha (every write of a key carries a
+   strictly increasing version - its revision - and a value drawn from a small domain, so the SAME value can
+   come back: A -> B -> A; a deletion is a version too), whether/when upstream reported in-sync,
    and, per client connection, what the client's SyncerCallbacks have been given.  Nothing about
    breadcrumbs, batching or the wire.  A client may be given anything at any time, subject to:
-     WrittenUpstream   every delivered (key, version, deleted?) was written upstream before;
+     WrittenUpstream   every delivered (key, version, value, deleted?) was written upstream before;
      Monotone          within a connection a key's versions never decrease;
      InSyncRule        in-sync is delivered only when upstream has reported in-sync and, for every
                        key, the connection's knowledge of it is at least as new as what the datastore
                        held when upstream (first) reported in-sync (a version >= that one; never
                        having been given the key is fine iff it was absent then or deleted since);
      Converged         when upstream has stopped and a sentinel written last has reached every
-                       client, each client's view is exactly the upstream's final view.          *)
+                       client, each client's view is exactly the upstream's final view (version AND
+                       value of every present key, absence of every other key).
+   Environment assumption (a syncer only reports changes): a write of a present key changes its value. *)
 EXTENDS Naturals, Sequences, FiniteSets
 
 CONSTANTS Keys, Clients
 
-VARIABLES ucur,     \* [Keys -> [ver, present]] latest upstream write per key (ver 0 = never written)
-          uhist,    \* set of upstream writes [k, ver, del]
+VARIABLES ucur,     \* [Keys -> [ver, val, present]] latest upstream write per key (ver 0 = never written)
+          uhist,    \* set of upstream writes [k, ver, val, del]
           hasIS,    \* upstream has reported in-sync
           isnap,    \* ucur at the first upstream in-sync
           joined,   \* clients that have connected
-          cview     \* [Clients -> [Keys -> [ver, present]]] last delivery per key on the connection
+          cview     \* [Clients -> [Keys -> [ver, val, present]]] last delivery per key on the connection
 pvars == <<ucur, uhist, hasIS, isnap, joined, cview>>
 
-Never == [ver |-> 0, present |-> FALSE]
+Never == [ver |-> 0, val |-> 0, present |-> FALSE]
 Blank == [k \in Keys |-> Never]
 
 Init == ucur = Blank /\ uhist = {} /\ hasIS = FALSE /\ isnap = Blank /\ joined = {} /\ cview = [c \in Clients |-> Blank]
 
-\* a delivered / written KV is [k, ver, del]
-KVOK(view, u) == /\ [k |-> u.k, ver |-> u.ver, del |-> u.del] \in uhist
+\* a delivered / written KV is [k, ver, val, del] (val = 0 for a deletion)
+KVOK(view, u) == /\ [k |-> u.k, ver |-> u.ver, val |-> u.val, del |-> u.del] \in uhist
                  /\ u.ver >= view[u.k].ver
-Apply1(view, u) == [view EXCEPT ![u.k] = [ver |-> u.ver, present |-> ~u.del]]
+Apply1(view, u) == [view EXCEPT ![u.k] = [ver |-> u.ver, val |-> u.val, present |-> ~u.del]]
 RECURSIVE KVsOK(_, _)
 KVsOK(view, us) == IF us = <<>> THEN TRUE ELSE KVOK(view, Head(us)) /\ KVsOK(Apply1(view, Head(us)), Tail(us))
 RECURSIVE ApplySeq(_, _)
@@ -48,20 +51,18 @@ SameView(view) == \A k \in Keys : IF ucur[k].present THEN view[k] = ucur[k] ELSE
 ConvergedOK == \A c \in joined : SameView(cview[c])
 
 \* ---- upstream ----------------------------------------------------------------------------------------
-Up(k, ver, del) ==
-    /\ ver > ucur[k].ver
-    /\ ucur' = [ucur EXCEPT ![k] = [ver |-> ver, present |-> ~del]]
-    /\ uhist' = uhist \cup {[k |-> k, ver |-> ver, del |-> del]}
-    /\ UNCHANGED <<hasIS, isnap, joined, cview>>
 \* one upstream OnUpdates call carrying several writes
 RECURSIVE UpsOK(_, _)
 UpsOK(cur, us) == IF us = <<>> THEN TRUE
-                  ELSE Head(us).ver > cur[Head(us).k].ver
-                       /\ UpsOK([cur EXCEPT ![Head(us).k] = [ver |-> Head(us).ver, present |-> ~Head(us).del]], Tail(us))
+                  ELSE LET u == Head(us) IN
+                       /\ u.ver > cur[u.k].ver
+                       /\ (~u.del /\ cur[u.k].present) => u.val # cur[u.k].val     \* a syncer only reports changes
+                       /\ u.del => cur[u.k].present
+                       /\ UpsOK(Apply1(cur, u), Tail(us))
 UpSeq(us) ==
     /\ UpsOK(ucur, us)
     /\ ucur' = ApplySeq(ucur, us)
-    /\ uhist' = uhist \cup { [k |-> us[i].k, ver |-> us[i].ver, del |-> us[i].del] : i \in DOMAIN us }
+    /\ uhist' = uhist \cup { [k |-> us[i].k, ver |-> us[i].ver, val |-> us[i].val, del |-> us[i].del] : i \in DOMAIN us }
     /\ UNCHANGED <<hasIS, isnap, joined, cview>>
 UStatus(s) ==
     /\ hasIS' = (hasIS \/ s = "insync")
